@@ -31,13 +31,7 @@ def cycle_functions(units):
 
 def arg_root(an, f, arg):
     """root of the object an argument expression denotes (with handle member refinement)"""
-    ids = {n['i'] for n in walk(arg)}
-    best = None
-    for a in an.accesses(f):
-        if a.node['i'] in ids:
-            if best is None or len(a.root) > len(best):
-                best = a.root
-    return best
+    return an.expr_root(f, arg)
 
 
 def classify_calls(an, f):
